@@ -9,6 +9,8 @@ NOTE = ("Trusted base: go/types, go/ssa, the VTA/CHA call graph (x/tools v0.29.0
         "it does not execute parsley code.")
 
 CLAIMED = {
+ "C16": dict(ref="§4 C16", technique="abstract interpretation of the typed AST of json.NewParser (value-shape inference through constructors, wrappers, recursive references and interpreters) + truth-table equivalence of SepBy's length predicate over its atomic comparisons",
+   text="Static shape inference deciding that the example grammar and the interpreters indexing into it agree: every alternative of the root evaluates to a JSON value type, no Select is out of range, Object() only sees key-value sequences with string keys, no sequence without interpreter is evaluated, SepBy alternates by parity and accepts exactly empty/odd chains. A necessary condition of agreement with encoding/json without panics; value agreement itself is a differential property and is not decided."),
  "C08": dict(ref="§4 C08", technique="panic-site inventory with taint classification of the immediate guard (configuration vs input), sibling agreement on conversion-error handling, Readf callback contract discharged by the linear-facts engine, provenance rules for node spans and decoded values, bounds obligations for package text/terminal",
    text="Static rules deciding, for all byte sequences and offsets, that no literal parser can panic on input (every explicit panic is configuration-guarded; conversion errors are returned; Readf's contract is satisfied by its callback including the invalid-UTF-8 rule; all index/slice expressions are in bounds), that every terminal returns a node xor an error, that nodes start at the parser's position and end at a Reader-returned one and take their value from Go's conversion. That the value equals Go's conversion of the LONGEST literal of the documented syntax (regexp semantics) is not decided."),
  "C09": dict(ref="§4 C09", technique="bounds obligations discharged by an in-house linear-facts abstract domain: dominating guards + type invariant File.len=len(File.data) + one-step loop induction + library contracts, refuted by Fourier-Motzkin elimination; who-may-write rule for file content; linear-normal-form comparison for Remaining/IsEOF",
